@@ -36,6 +36,10 @@ HARNESS = {
     'C02': ('harness.sim_props', 'run_C02', 'replay_C02'),
     'C03': ('harness.sim_props', 'run_C03', 'replay_C03'),
     'C13': ('harness.sim_props', 'run_C13', 'replay_C13'),
+    'C11': ('harness.sim_props', 'run_C11', 'replay_C11'),
+    'C12': ('harness.sim_props', 'run_C12', 'replay_C12'),
+    'C16': ('harness.sim_props', 'run_C16', 'replay_C16'),
+    'C17': ('harness.sim_props', 'run_C17', 'replay_C17'),
 }
 
 TRUSTED_BASE = [
@@ -109,6 +113,14 @@ def main():
         case = payload.get('case', payload)
         getattr(mod, replayname)(ctx, case)
     else:
+        # corpus first: minimised past failures and one representative input per known finding
+        cdir = os.path.join(VERIF, 'corpus', pid)
+        if os.path.isdir(cdir):
+            for fn in sorted(os.listdir(cdir)):
+                if fn.endswith('.json'):
+                    payload = json.load(open(os.path.join(cdir, fn)))
+                    getattr(mod, replayname)(ctx, payload.get('case', payload))
+                    ctx.count('corpus cases replayed')
         getattr(mod, runname)(ctx)
 
     broken = []
